@@ -282,7 +282,18 @@ func init() {
 				Run: func(w *fw.W) {
 					tags := []string{"", "a", "A", "ab"}
 					w.Each(len(tags), func(i int) {
-						enumBodies(w, []string{"$", "a", "A", "b"}, w.Pick(7, 8), func(body string) { w.Item(body, tags[i]) })
+						enumBodies(w, []string{"$", "a", "A", "b", "\xff"}, w.Pick(6, 7), func(body string) { w.Item(body, tags[i]) })
+					})
+					// tags of boundary lengths with short bodies that contain the tag in both cases
+					var long []string
+					for _, k := range []int{2, 15, 16, 17, 30, 31, 32, 33, 62, 63, 64, 65, 100, 127, 128, 129, 255, 256, 257} {
+						long = append(long, strings.Repeat("a", k))
+					}
+					w.Each(len(long), func(i int) {
+						t := long[i]
+						for _, body := range []string{"", "x", "x$" + t + "$y", "x$" + strings.ToUpper(t) + "$y$" + t + "$z", "$" + t, t + "$", "\xff$" + strings.ToUpper(t) + "$"} {
+							w.Item(body, t)
+						}
 					})
 				}, Eval: evalC18Dollar},
 		},
